@@ -113,6 +113,18 @@ def _unit_arith(op, a, b, ctx, path, line):
 
 
 def _unit_cmp(op, a, b):
+    if is_unit(a) and is_unit(b) and ("symdim" in a.fields or "symdim" in b.fields):
+        # a unit of symbolic dimension (C18's candidate units): equal units have equal dimensions and equal scales; the scale of the
+        # candidate is unknown, so "same scale" is one free Boolean per compared pair
+        import z3 as _z3
+        da = a.fields.get("symdim", a.fields.get("dim"))
+        db = b.fields.get("symdim", b.fields.get("dim"))
+        tag = f"same_scale({a.fields.get('name', getattr(a, 'ident', 'u'))},{b.fields.get('name', getattr(b, 'ident', 'u'))})"
+        eq = _z3.And(*[x == y for x, y in zip(da, db)], _z3.Bool(tag))
+        if isinstance(op, ast.Eq):
+            return eq
+        if isinstance(op, ast.NotEq):
+            return _z3.Not(eq)
     if is_unit(a) and is_unit(b):
         same = a.fields["dim"] == b.fields["dim"]
         eq = val_eq(a.fields["scale"], b.fields["scale"]) if same else False
